@@ -27,6 +27,15 @@ def gen_texts(ctx):
     texts += G.special_texts()
     texts += G.nesting_texts()
     texts += G.joint_alias_texts(q)
+    from . import gen_scale as GS
+    texts += GS.scale_programs(q)
+    for k in (1, 2, 6, 7, 8, 9, 16, 33, 64, 65):
+        dims = ", ".join(str(1 + j % 3) for j in range(k))
+        texts += [f"array[int[8], {dims}] a;", f"def f(readonly array[int[8], {dims}] t) {{ }}", f"array[int, {dims}",
+                  f"def g(mutable array[float[64], #dim = {k}] t) {{ }}", "int x = a" + "[0]" * k + ";", "x" + "[1, 2]" * k + " = 1;",
+                  "gate g(" + ", ".join(f"p{j}" for j in range(k)) + ") " + ", ".join(f"q{j}" for j in range(k)) + " { }",
+                  "f(" + ", ".join(str(j) for j in range(k)) + ");", "switch (x) { " + " ".join(f"case {j} {{ }}" for j in range(k)) + " }",
+                  "{" + ", ".join(str(j) for j in range(k)) + "};", "inv @ " * k + "h q;", "ctrl(" + "(" * k + "1" + ")" * k + ") @ x q, r;"]
     texts += G.escape_texts(rnd, 1500 if q else 20000)
     # token-count boundaries: truncated statements / programs padded to 63, 64, 65, 128 parser tokens
     ends = ["def f()", "def f() -", "a +", "a + ", "x = a", "for int i in", "gate g q", "U(1) q", "a <", "a >", "a &", "a |",
